@@ -94,8 +94,10 @@ impl ContainsPoint for Triangle {
         // Check if point is inside triangle using https://stackoverflow.com/a/20861130/383609.
         // Works for any point ordering.
         let is_inside = {
-            let s = p1.y * p3.x - p1.x * p3.y + (p3.y - p1.y) * p.x + (p1.x - p3.x) * p.y;
-            let t = p1.x * p2.y - p1.y * p2.x + (p1.y - p2.y) * p.x + (p2.x - p1.x) * p.y;
+            // All terms are relative to `p1` to make the result independent of the absolute
+            // position of the triangle.
+            let s = (p3.y - p1.y) * (p.x - p1.x) - (p3.x - p1.x) * (p.y - p1.y);
+            let t = (p2.x - p1.x) * (p.y - p1.y) - (p2.y - p1.y) * (p.x - p1.x);
 
             if (s < 0) != (t < 0) {
                 false
@@ -181,7 +183,9 @@ impl Triangle {
     pub(in crate::primitives) const fn area_doubled(&self) -> i32 {
         let [p1, p2, p3] = self.vertices;
 
-        -p2.y * p3.x + p1.y * (p3.x - p2.x) + p1.x * (p2.y - p3.y) + p2.x * p3.y
+        // The cross product is calculated relative to `p1` to make the result independent of the
+        // absolute position of the triangle.
+        (p2.x - p1.x) * (p3.y - p1.y) - (p2.y - p1.y) * (p3.x - p1.x)
     }
 
     /// Create a new triangle with points sorted in a clockwise direction.
